@@ -30,7 +30,7 @@ def PErr.bytes : PErr → Option Bytes
 
 /-- `AsTCPErrorPacket`: `some e` when the 9 bytes are an exception frame -/
 def asTCPErrorPacket (s : Slice) : PRes (Option PErr) :=
-  if s.len ≠ 9 then .ok none else
+  if s.vis.length ≠ 9 then .ok none else
   (s.idx 7).bind fun f =>
   if f &&& 128 ≠ 0 then
     (s.rd16 0).bind fun tid =>
@@ -41,7 +41,7 @@ def asTCPErrorPacket (s : Slice) : PRes (Option PErr) :=
 
 /-- `AsRTUErrorPacket` -/
 def asRTUErrorPacket (s : Slice) : PRes (Option PErr) :=
-  if s.len ≠ 5 then .ok none else
+  if s.vis.length ≠ 5 then .ok none else
   (s.idx 1).bind fun f =>
   if f &&& 128 ≠ 0 then
     (s.idx 0).bind fun unit =>
@@ -56,7 +56,7 @@ def supportedFunctionCodes : List UInt8 := [1, 2, 3, 4, 5, 6, 15, 16, 17, 23]
 /-- `LooksLikeModbusTCP(data, allowUnsupported)`: Go returns `(expectedLen, err)`; both can be
 set (unsupported function code). -/
 def looksLike (s : Slice) (allowUnsupported : Bool) : Res Unit (Nat × Option PErr) :=
-  if s.len < 8 then .ok (0, some .tooShortT) else
+  if s.vis.length < 8 then .ok (0, some .tooShortT) else
   (s.idx 2).bind fun d2 =>
   (s.idx 3).bind fun d3 =>
   if ¬(d2 = 0 ∧ d3 = 0) then .ok (0, some .notTCP) else
@@ -97,9 +97,9 @@ def Resp.bytes : Framing → UInt16 → Resp → Bytes
 `ParseRead{Holding,Input}RegistersResponseTCP`, `ParseReadWriteMultipleRegistersResponseTCP` (`minLen` 11) -/
 def parseByteCountRespTCP (mk : UInt8 → UInt8 → Bytes → Resp) (minLen : Nat) (s : Slice) :
     PRes (UInt16 × Resp) :=
-  if s.len < minLen then .err .plain else
+  if s.vis.length < minLen then .err .plain else
   (s.idx 8).bind fun bl =>
-  if s.len ≠ 9 + bl.toNat then .err .plain else
+  if s.vis.length ≠ 9 + bl.toNat then .err .plain else
   (s.rd16 0).bind fun tid =>
   (s.idx 6).bind fun unit =>
   (s.bytes 9 (9 + bl.toNat)).bind fun d =>
@@ -107,26 +107,26 @@ def parseByteCountRespTCP (mk : UInt8 → UInt8 → Bytes → Resp) (minLen : Na
 
 def parseByteCountRespRTU (mk : UInt8 → UInt8 → Bytes → Resp) (minLen : Nat) (s : Slice) :
     PRes Resp :=
-  if s.len < minLen then .err .plain else
+  if s.vis.length < minLen then .err .plain else
   (s.idx 2).bind fun bl =>
-  if s.len ≠ 3 + bl.toNat + 2 then .err .plain else
+  if s.vis.length ≠ 3 + bl.toNat + 2 then .err .plain else
   (s.idx 0).bind fun unit =>
   (s.bytes 3 (3 + bl.toNat)).bind fun d =>
   .ok (mk unit bl d)
 
 /-- FC5/FC6/FC15/FC16 TCP: `dLen < 12`, then `dLen != 6 + pduLen` -/
 def parseFixedRespTCP (mk : UInt8 → Slice → PRes Resp) (s : Slice) : PRes (UInt16 × Resp) :=
-  if s.len < 12 then .err .plain else
+  if s.vis.length < 12 then .err .plain else
   (s.rd16 4).bind fun pduLen =>
-  if s.len ≠ 6 + pduLen.toNat then .err .plain else
+  if s.vis.length ≠ 6 + pduLen.toNat then .err .plain else
   (s.rd16 0).bind fun tid =>
   (s.idx 6).bind fun unit =>
   (mk unit s).bind fun r =>
   .ok (tid, r)
 
 def parseFixedRespRTU (mk : UInt8 → Slice → PRes Resp) (s : Slice) : PRes Resp :=
-  if s.len < 8 then .err .plain else
-  if s.len > 8 then .err .plain else
+  if s.vis.length < 8 then .err .plain else
+  if s.vis.length > 8 then .err .plain else
   (s.idx 0).bind fun unit => mk unit s
 
 def mkWCoilResp (off : Nat) (unit : UInt8) (s : Slice) : PRes Resp :=
@@ -147,14 +147,14 @@ def mkWMultiResp (fc : UInt8) (off : Nat) (unit : UInt8) (s : Slice) : PRes Resp
 
 /-- `ParseReadServerIDResponseTCP` -/
 def parseSidRespTCP (s : Slice) : PRes (UInt16 × Resp) :=
-  if s.len < 11 then .err .plain else
+  if s.vis.length < 11 then .err .plain else
   (s.idx 8).bind fun n =>
   if n = 0 then .err .plain else
   let statusIdx := 8 + n.toNat + 1
-  if statusIdx ≥ s.len then .err .plain else
+  if statusIdx ≥ s.vis.length then .err .plain else
   (s.bytes 9 (9 + n.toNat)).bind fun id =>
   (s.idx statusIdx).bind fun st =>
-  (if s.len > statusIdx + 1 then
+  (if s.vis.length > statusIdx + 1 then
       ((s.from_ (ε := PErr) (statusIdx + 1)).bind fun t => .ok (some t.vis))
     else .ok none).bind fun add =>
   (s.rd16 0).bind fun tid =>
@@ -163,15 +163,15 @@ def parseSidRespTCP (s : Slice) : PRes (UInt16 × Resp) :=
 
 /-- `ParseReadServerIDResponseRTU` -/
 def parseSidRespRTU (s : Slice) : PRes Resp :=
-  if s.len < 7 then .err .plain else
+  if s.vis.length < 7 then .err .plain else
   (s.idx 2).bind fun n =>
   if n = 0 then .err .plain else
   let statusIdx := 2 + n.toNat + 1
-  if statusIdx ≥ s.len - 2 then .err .plain else
+  if statusIdx ≥ s.vis.length - 2 then .err .plain else
   (s.bytes 3 (3 + n.toNat)).bind fun id =>
   (s.idx statusIdx).bind fun st =>
-  (if s.len > statusIdx + 1 then
-      ((s.bytes (statusIdx + 1) (s.len - 2)).bind fun t => .ok (some t))
+  (if s.vis.length > statusIdx + 1 then
+      ((s.bytes (statusIdx + 1) (s.vis.length - 2)).bind fun t => .ok (some t))
     else .ok none).bind fun add =>
   (s.idx 0).bind fun unit =>
   .ok (.sid unit st id add)
@@ -207,7 +207,7 @@ def parseRespRTUfc (fc : UInt8) (s : Slice) : PRes Resp :=
 
 /-- `ParseTCPResponse` -/
 def parseTCPResponse (s : Slice) : PRes (UInt16 × Resp) :=
-  if s.len < 8 then .err .plain else
+  if s.vis.length < 8 then .err .plain else
   (asTCPErrorPacket s).bind fun e =>
   match e with
   | some e => .err e
@@ -215,7 +215,7 @@ def parseTCPResponse (s : Slice) : PRes (UInt16 × Resp) :=
 
 /-- `ParseRTUResponse` -/
 def parseRTUResponse (s : Slice) : PRes Resp :=
-  if s.len < 4 then .err .plain else
+  if s.vis.length < 4 then .err .plain else
   (asRTUErrorPacket s).bind fun e =>
   match e with
   | some e => .err e
@@ -223,7 +223,7 @@ def parseRTUResponse (s : Slice) : PRes Resp :=
 
 /-- `ParseRTUResponseWithCRC` -/
 def parseRTUResponseWithCRC (s : Slice) : PRes Resp :=
-  if s.len < 4 then .err .plain else
+  if s.vis.length < 4 then .err .plain else
   if !crcMatches s.vis then .err .badCRC else
   parseRTUResponse s
 
